@@ -169,6 +169,8 @@ def server_token(rng, valid_only=False):
         if form < 0.8:
             return "[%s]:%s%%%s" % (linklocal(rng), port(rng), ifc)
         return "[%s]%%%s" % (linklocal(rng), ifc)
+    if c < 0.86 and not valid_only:
+        return uri_junk(rng)
     if c < 0.92:
         # dns:// URI forms as ares_get_server_addr emits them, and near misses
         host = rng.choice([ipv4(rng), "[%s]" % ipv6_text(rng), "[%s%%%s]" % (linklocal(rng), rng.choice(IFACES + ["br-lan"]))])
@@ -185,6 +187,44 @@ def server_token(rng, valid_only=False):
                        "DNS://1.2.3.4:53", "dns://1.2.3.4:53?tcpport=", "dns://u@1.2.3.4", "dns://1.2.3.4/p", "dns://1.2.3.4:53?x=1",
                        "12345::", ":1", "1:::2", "::ffff:1.2.3.4", "::1.2.3.4", "1:2:3:4:5:6:1.2.3.4", "a" * 50, "1" * 46 + ".1",
                        "fe80::1%" + "i" * 16, "fe80::1%eth0%eth0", "[fe80::1%eth0]", "1.2.3.4%eth0", "fe80::1%25lo"])
+
+
+def uri_junk(rng):
+    """dns:// entries with URI-syntax junk: most cannot name a server, all must be survived"""
+    host = rng.choice(["10.9.9.9", "1.2.3.4", "[2001:db8::1]", "[fe80::1%25eth0]", "[fe80::1%eth0]", "host.example", "", "[::1", "::1", "1.2.3.4.5", "256.1.1.1", "[]", "%31.2.3.4", "1.2.3.4%", "u@1.2.3.4", "u:p@1.2.3.4", "@1.2.3.4", "1.2.3.4@"])
+    port = rng.choice(["", "", ":53", ":5353", ":", ":0", ":65536", ":99999999999", ":5x", ":-1", ":+53", "::53", ":53:54"])
+    path = rng.choice(["", "", "", "/", "/p", "//", "/%", "/%4", "/%zz", "/a%20b", "/" + "p" * rng.choice([10, 300, 600])])
+    pairs = ["tcpport=5353", "tcpport=53", "x=1", "x", "x=", "=1", "=", "tcpport", "tcpport=", "tcpport=abc", "tcpport=70000", "tcpport=5353&tcpport=54", "a%3Db=c", "k=%", "k=%4", "k=%zz",
+             "%=1", "%41=1", "k=v=w", "k==v", "tcpport=%35%33", "sp%20ace=1", "k=" + "v" * rng.choice([10, 300, 600, 5000])]
+    q = rng.random()
+    if q < 0.25:
+        query = ""
+    elif q < 0.55:
+        # empty pairs: leading '&', '&&', trailing '&' / '&&'
+        n = rng.randint(1, 3)
+        ps = [rng.choice(pairs) for _ in range(n)]
+        form = rng.choice(["&%s", "%s&&%s", "%s&&", "%s&", "&&", "&", "&&%s", "%s&&&%s", "&=&", "%s&=%s"])
+        query = "?" + form.replace("%s", "{}").format(*[rng.choice(ps) for _ in range(form.count("%s"))])
+    else:
+        query = "?" + "&".join(rng.choice(pairs) for _ in range(rng.choice([1, 1, 2, 3, 40])))
+    frag = rng.choice(["", "", "", "#", "#frag", "#%", "#a#b", "#" + "f" * 300])
+    scheme = rng.choice(["dns", "dns", "dns", "dns", "DNS", "Dns", "http", "dns+tls", "1dns", "d_ns", ""])
+    if rng.random() < 0.65:
+        # one defect at a time on an otherwise well-formed entry, so that the parser gets that far
+        keep = rng.choice(["host", "port", "path", "query", "query", "query", "frag", "scheme"])
+        if keep != "host":
+            host = rng.choice(["10.9.9.9", "1.2.3.4", "[2001:db8::1]", "[fe80::1%eth0]"])
+        if keep != "port":
+            port = rng.choice(["", ":53", ":5353"])
+        if keep != "path":
+            path = ""
+        if keep != "query":
+            query = rng.choice(["", "?tcpport=5353"])
+        if keep != "frag":
+            frag = ""
+        if keep != "scheme":
+            scheme = "dns"
+    return "%s://%s%s%s%s%s" % (scheme, host, port, path, query, frag)
 
 
 def domain(rng):
@@ -265,7 +305,7 @@ def valid_resolv_lines(rng):
 
 
 JUNK_CLASSES = ["comment", "blank", "unknown-keyword", "no-argument", "unprintable", "overlong", "nameserver-tokens",
-                "sortlist-token", "sortlist-mask", "options-plain", "options-numeric", "search-empty", "lookup-noword", "binary"]
+                "sortlist-token", "sortlist-mask", "uri-malformed", "options-plain", "options-numeric", "search-empty", "lookup-noword", "binary"]
 
 
 def junk_line(rng, cls):
@@ -288,6 +328,10 @@ def junk_line(rng, cls):
         return "nameserver " + rng.choice(["junk", "none", "localhost", "ns1.example.com", "# 6.6.6.6", "%eth0", "/24", "-1", "x6.6.6.6", "junk1 junk2,junk3", "\"6.6.6.6\"", "*", "g::1"])
     if cls == "sortlist-token":
         return "sortlist " + rng.choice(["junk", "junk 10.0.0.0/8", "/8 10.0.0.0/8", "x1.2.3.4", "net/8", "*", ";", "; ;", ";;;"])
+    if cls == "uri-malformed":
+        # nameserver entries in URI form that cannot name a server; the driver keeps only the lines
+        # its own syntactic criterion calls malformed for the metamorphic verdict, all of them are run
+        return "nameserver " + rng.choice([" ", ",", ", "]).join(uri_junk(rng) for _ in range(rng.choice([1, 1, 2, 3])))
     if cls == "sortlist-mask":
         # an entry whose numeric prefix length is no prefix length for any family (above 128 or more
         # than three digits), alone or among valid entries
@@ -457,9 +501,28 @@ def csv_servers(rng):
     return rng.choice([",", ",", " ", ", "]).join(toks)
 
 
+def mixed_csv(rng):
+    """IPv4 and IPv6 servers in every order (the legacy options struct keeps the IPv4 ones only)"""
+    n = rng.choice([2, 3, 3, 4, 5, 8])
+    fam = [rng.choice("46") for _ in range(n)]
+    if "4" not in fam:
+        fam[rng.randrange(n)] = "4"
+    if "6" not in fam:
+        fam[rng.randrange(n)] = "6"
+    ents = []
+    for f in fam:
+        if f == "4":
+            ents.append(ipv4(rng) if rng.random() < 0.7 else "%s:%s" % (ipv4(rng), rng.choice(["53", "5353"])))
+        else:
+            ents.append(rng.choice(["%s", "[%s]:53", "[%s]:5353"]) % ipv6_text(rng) if rng.random() < 0.85 else "%s%%%s" % (linklocal(rng), rng.choice(IFACES)))
+    return ",".join(ents)
+
+
 def gen_opt(rng):
     params = user_options(rng, dense=True) + env_params(rng)
-    if rng.random() < 0.55:
+    if rng.random() < 0.15:
+        params.append("csv=" + hx(mixed_csv(rng)))
+    elif rng.random() < 0.55:
         csv = csv_servers(rng)
         if rng.random() < 0.3:
             # a user-specified list with a link-local server on an interface of the virtual table:
